@@ -29,6 +29,12 @@ pub struct Case {
     explicit: Vec<AddrSpec>,
     behaviour: Vec<AddrSpec>,
     extend: bool,
+    /// the pending setup dial that makes the pre-state "dialing" was built with `DialOpts::override_role()`
+    #[serde(default)]
+    dialing_override: bool,
+    /// the dial under test is built with `override_role()`
+    #[serde(default)]
+    override_role: bool,
 }
 
 fn p() -> PeerId {
@@ -92,7 +98,9 @@ fn check_inner(c: &Case) -> Outcome {
     }
     if c.dialing {
         let setup = Multiaddr::empty().with(Protocol::Memory(4001));
-        if w.dial(0, DialOpts::peer_id(p()).condition(PeerCondition::Always).addresses(vec![setup]).build()).is_err() {
+        let b = DialOpts::peer_id(p()).condition(PeerCondition::Always).addresses(vec![setup]);
+        let o = if c.dialing_override { b.override_role().build() } else { b.build() };
+        if w.dial(0, o).is_err() {
             return Outcome::Inconclusive("setup dial refused".into());
         }
         w.settle(50, &mut sink);
@@ -105,15 +113,24 @@ fn check_inner(c: &Case) -> Outcome {
         _ => PeerCondition::DisconnectedAndNotDialing,
     };
     let opts = if c.with_peer {
-        let b = DialOpts::peer_id(p()).condition(cond).addresses(explicit.clone());
+        let mut b = DialOpts::peer_id(p()).condition(cond).addresses(explicit.clone());
         if c.extend {
-            b.extend_addresses_through_behaviour().build()
-        } else {
-            b.build()
+            b = b.extend_addresses_through_behaviour();
         }
+        if c.override_role {
+            b = b.override_role();
+        }
+        b.build()
     } else {
         match explicit.first() {
-            Some(a) => DialOpts::unknown_peer_id().address(a.clone()).build(),
+            Some(a) => {
+                let b = DialOpts::unknown_peer_id().address(a.clone());
+                if c.override_role {
+                    b.override_role().build()
+                } else {
+                    b.build()
+                }
+            }
             None => return Outcome::Discard,
         }
     };
@@ -146,8 +163,17 @@ fn check_inner(c: &Case) -> Outcome {
     };
     let detail = |extra: serde_json::Value| json!({"explicit": explicit.iter().map(|a| a.to_string()).collect::<Vec<_>>(), "behaviour": behaviour_addrs.iter().map(|a| a.to_string()).collect::<Vec<_>>(), "listen": listen_addrs.iter().map(|a| a.to_string()).collect::<Vec<_>>(), "recorded": recorded.iter().map(|a| a.to_string()).collect::<Vec<_>>(), "result": format!("{res:?}"), "extra": extra});
     let mut labels: Vec<&'static str> = vec![];
+    if c.dialing && c.dialing_override {
+        labels.push("dialing_with_role_override");
+    }
+    if c.override_role {
+        labels.push("dial_with_role_override");
+    }
     if !should {
         labels.push("condition_false");
+        if c.dialing && c.dialing_override && !(c.connected && !matches!(cond, PeerCondition::NotDialing)) {
+            labels.push("condition_false_only_because_of_role_overridden_dial");
+        }
         if res != Err(ErrKind::ConditionFalse) {
             return Outcome::fail("C04:condition-false-not-rejected", detail(json!({"cond": format!("{cond:?}"), "connected": c.connected, "dialing": c.dialing})));
         }
@@ -249,13 +275,21 @@ pub fn run(ctx: &mut Ctx) {
     ctx.assume("the peer a dial is for is DialOpts::get_peer_id(); own listen addresses are matched exactly as announced; two inputs that differ only by a trailing /p2p/<target> are counted as distinct inputs (suffix_collision label), so dialing the resulting equal address twice is not asserted against");
     ctx.check::<Case>(
         "dial",
-        "pre-state (connected/dialing to P) x PeerCondition x explicit list (0..6, duplicates, own listen addresses, /p2p/P or foreign /p2p/Q suffixes) x behaviour list x extend flag x with/without peer id, on one real Swarm over the simulated transport; non-trivial = condition false, or a duplicate / own listen address in the input; distinct by case hash",
+        "pre-state (connected/dialing to P; the pending dial is an ordinary or a role-overridden one, DialOpts::override_role) x PeerCondition x explicit list (0..6, duplicates, own listen addresses, /p2p/P or foreign /p2p/Q suffixes) x behaviour list x extend flag x with/without peer id, on one real Swarm over the simulated transport; non-trivial = condition false, or a duplicate / own listen address in the input; distinct by case hash",
         ctx.n(60_000, 2_000_000),
         &|| {
-            (0u8..3, any::<bool>(), any::<bool>(), proptest::bool::weighted(0.8), 0u8..4, proptest::collection::vec(spec(), 0..6), proptest::collection::vec(spec(), 0..4), any::<bool>())
-                .prop_map(|(listen, connected, dialing, with_peer, cond, explicit, behaviour, extend)| Case { listen, connected, dialing, with_peer, cond, explicit, behaviour, extend })
+            (0u8..3, any::<bool>(), any::<bool>(), proptest::bool::weighted(0.8), 0u8..4, proptest::collection::vec(spec(), 0..6), proptest::collection::vec(spec(), 0..4), any::<bool>(), (proptest::bool::weighted(0.4), proptest::bool::weighted(0.25)))
+                .prop_map(|(listen, connected, dialing, with_peer, cond, explicit, behaviour, extend, (dialing_override, override_role))| Case { listen, connected, dialing, with_peer, cond, explicit, behaviour, extend, dialing_override, override_role })
                 .boxed()
         },
         &check,
+    );
+    ctx.assume("world sub-check: 'connected' = an established and not yet closed connection to the peer in the returned SwarmEvents; 'dialing' = an accepted dial for the peer (any role) without a terminal event; both are read from the history where Swarm::dial is called (between polls)");
+    ctx.check::<crate::life::Case>(
+        "world",
+        "world programs of 4..40 ops over 1..3 swarms, dial-heavy (dials with all four PeerConditions, with/without peer id, ordinary and role-overridden, direct and through a behaviour) interleaved with resolutions, failures, inbound connections, closes, disconnects and schedules; oracle at every Swarm::dial: DialPeerConditionFalse iff the condition is false in the history so far, no transport dial for a rejected dial, a rejected dial reported exactly once to every field. non-trivial = a dial rejected for its condition and a conditional dial accepted in the same program; distinct by case hash",
+        ctx.n(40_000, 1_200_000),
+        &|| crate::life::case_strategy(2, 1..=2, 1, 40, crate::life::Weights { dial: 16, connect: 5, resolve_ok: 8, resolve_err: 3, disconnect: 2, ..crate::life::Weights::default() }),
+        &|c| crate::c01::eval(c, "C04:", &|r| r.flags.cond_false > 0 && r.flags.cond_true > 0),
     );
 }
